@@ -32,11 +32,14 @@ func init() { core.Register(P{}) }
 
 func (P) ID() string { return "C11" }
 func (P) Rule() string {
-	return "case = one bidirectional stream built by grpc.AsStreamProcessorFactory over recording sinks: HEADERS (content-type, grpc-encoding " +
-		"identity/gzip/deflate/snappy), then the length-prefixed byte stream of 0..n messages (empty..1MiB, compressed flag 0/1, sender's own " +
+	return "case = one bidirectional stream built by grpc.AsStreamProcessorFactory over recording sinks: HEADERS as an ordered field list (content-type " +
+		"before, between or after 0..3 grpc-encoding fields identity/gzip/deflate/snappy of which the last counts, look-alike field names, content-type " +
+		"variants, Trailers-Only), then the length-prefixed byte stream of 0..n messages (empty..1MiB, compressed flag 0/1, sender's own " +
 		"compression level) cut into DATA frames - every one of the 2^(n-1) cut sets for short streams, all 1- and sampled 2-cut sets for medium, " +
-		"random cuts for long - with END_STREAM on the last DATA frame, on a separate empty DATA frame or on trailers, in either or both directions; " +
-		"plus malformed streams (truncated, bad flag bytes, undecodable payloads, unknown encodings), non-gRPC streams and PRIORITY/RST/PUSH frames; " +
+		"random cuts for long, zero-length frames without END_STREAM at every position (short streams) or sprinkled in - with END_STREAM on the last " +
+		"DATA frame, on a separate empty DATA frame or on trailers, in either or both directions; " +
+		"plus malformed streams (truncated, bad flag bytes, undecodable payloads, unknown encodings), non-gRPC streams, PRIORITY/RST/PUSH frames " +
+		"and the uint32 prefix arithmetic at its boundaries; " +
 		"distinct by hash of the op list; non-trivial when a gRPC byte stream carrying at least one message arrives in at least two DATA frames, " +
 		"or a non-gRPC stream carries at least one DATA frame"
 }
